@@ -1,9 +1,9 @@
 (* C19 — Paginators yield every item exactly once, in order.
    Property theorems only: each is closed by [exact] of a lemma of Proofs.v and followed by Print Assumptions.
    Model: GU.C19.Model (mirrors pagination.go / stream.go), tied to the code by the correspondence runs of harness/cmd/c19. *)
-From Coq Require Import List ZArith Bool.
+From Coq Require Import List ZArith Bool Lia.
 Import ListNotations.
-From GU Require Import C19.Model C19.Proofs.
+From GU Require Import C19.Model C19.Proofs C19.ProofsTimed.
 
 (* Refinement: for every state of a static/dynamic paginator and EVERY sequence of HasNext/GetNext/Stop/Close calls,
    the observable outputs are those of a cursor into "the items of the current iterator followed by the items of all
@@ -69,6 +69,27 @@ Theorem stream_stops_when_dry : forall s,
 Proof. exact stream_dry_elapsed_is_plain. Qed.
 Print Assumptions stream_stops_when_dry.
 
+(* The grace period, with time made explicit (timed model Model.tloop: one clock reading per polling iteration, DryUp
+   possibly arriving while HasNext is blocked in its loop).  The stream paginator gives up waiting for future pages ONLY
+   at a reading taken after DryUp whose clock is at least timeOut later than the last poll made while the stream was
+   still live ([last_live]: the grace period is counted from the drying-up notice, not from the last item yielded) ... *)
+Theorem stream_grace_counts_from_last_live_poll : forall futs T reach i r env s',
+  tloop T reach i r futs env = (TExpired, s') ->
+  exists pre now post, env = pre ++ (now, true) :: post /\ t_env s' = post /\
+                       t_reach s' = last_live reach pre /\ (T <= now - last_live reach pre)%Z.
+Proof. exact tloop_expired. Qed.
+Print Assumptions stream_grace_counts_from_last_live_poll.
+
+(* ... and as long as every reading after DryUp is within that period, the timed loop IS the untimed loop with
+   "grace not elapsed" (to which stream_keeps_going applies): items of future pages keep coming. *)
+Theorem stream_within_grace_keeps_going : forall futs T reach i r env d0,
+  within_grace T reach env -> (length futs < length env)%nat ->
+  let '(t, s') := tloop T reach i r futs env in
+  let '(b, (i', r', f')) := stream_loop false d0 false i r futs in
+  tres_bool t = b /\ t <> TExpired /\ t <> TEnvExhausted /\ t_it s' = i' /\ t_rest s' = r' /\ t_futs s' = f'.
+Proof. exact tloop_within_grace. Qed.
+Print Assumptions stream_within_grace_keeps_going.
+
 (* Constructor failures are reported as errors (model side; the implementation side is the harness oracle,
    which found the static paginator returning (nil, nil) before the fix). *)
 Theorem constructor_reports_failure : forall pages futs,
@@ -87,3 +108,20 @@ Example c19_stream_nonvacuous :
             good_futures (futures s) = true /\
             drain true false 10 s = ([1;2;3;4]%Z, true).
 Proof. eexists; split; [reflexivity|]; split; reflexivity. Qed.
+
+(* Non-vacuity of the timed theorems: idle (polling) for 900 ms with a 600 ms grace period, DryUp at 900, an item in a
+   future page at 1000: it is yielded; the same item at 2800 is not (the loop expires at the first reading >= 1500). *)
+Example c19_timed_nonvacuous :
+  let env := map (fun k => (Z.of_nat k * 100, (9 <=? Z.of_nat k)))%Z (seq 0 40) in
+  within_grace 600 0 (firstn 12 env) /\
+  fst (tloop 600 0 (Some []) [] (repeat [Page []] 10 ++ [[Page [7]]])%Z (firstn 12 env)) = TTrue /\
+  fst (tloop 600 0 (Some []) [] (repeat [Page []] 28 ++ [[Page [7]]])%Z env) = TExpired.
+Proof.
+  cbv zeta. split; [|split; vm_compute; reflexivity].
+  intros pre now post He.
+  assert (Hl : (length pre < 12)%nat).
+  { apply (f_equal (@length _)) in He. rewrite app_length in He. simpl in He.
+    lia. }
+  do 12 (destruct pre as [|? pre]; [vm_compute in He; inversion He; subst; vm_compute; reflexivity|]).
+  simpl in Hl. lia.
+Qed.
